@@ -232,7 +232,10 @@ def explore_sharded(U, rep, wrapper, shards, cap, batch, max_depth=4):
   if wrapper == 'PmapWrapper':
     w = I.apply(ClsRef(RB, load(RB)['classes'][wrapper]), [q], {'local_device_count': shards})
   else:
-    mesh = Struct('Mesh', {'shape': {'x': shards}})
+    # a device mesh with a second axis the buffer is NOT partitioned over: the shard count is the product of the
+    # named axes only (mesh.size / mesh.devices would count every device)
+    mesh = Struct('Mesh', {'shape': {'x': shards, 'y': 2}, 'size': 2 * shards, 'axis_names': ('x', 'y'),
+                           'devices': np.arange(2 * shards).reshape(shards, 2)})
     w = I.apply(ClsRef(RB, load(RB)['classes'][wrapper]), [q, mesh, ('x',)], {})
   key = symarr('key', (2,))
   st = safe_call(I, w, 'init', [key])
